@@ -348,7 +348,9 @@ MembersOf(cls, P) ==
          << Lin1("aI-1d-(-1/rho)", RNeg(r), Z, Z, Z), Lin1("aI-1d-(-2/rho)+shift", RNeg(SMul(Two, r)), Half, One, Z),
             Lin1("zero-1d", Z, Z, Z, Z), Lin1("aI-1d-monotone", One, Z, Half, Z),
             Lin2o("aI+bJ-tight-2d", IJ(RNeg(RHalf(r)), RHalf(r))), Lin2o("diag(-1/rho,1)-2d", Dg(RNeg(r), One)),
-            Lin2o("rotation-J-2d", IJ(Z, One)), Sep1("grad-plus2-1d", Plus2(One), Z, Z) >>
+            Lin2o("rotation-J-2d", IJ(Z, One)), Sep1("grad-plus2-1d", Plus2(One), Z, Z),
+            \* multi-valued members (every monotone operator is negatively comonotone)
+            Sep1("subdiff-abs-1d", QAbs(Z, One), Z, Z), Sep1("normal-cone-1d", Ind(Q(-1, 2), One), Z, Z) >>
     [] cls = "NonexpansiveOperator" ->
          << Lin1("identity-1d", One, Z, Z, Z), Lin1("reflection-1d", RI(-1), Half, Half, Z), Lin1("contraction-1d", Half, Half, Half, Z),
             Lin1("translation-1d", One, Z, Half, Q(-1, 2)), Lin2o("rotation-J-2d", IJ(Z, One)),
